@@ -23,19 +23,24 @@ LEVEL_TEXT = ("Machine-checked proof (Coq, closed under the global context) over
               "at its key, that a read returns a non-empty prefix of the file at the position or EOF exactly at the "
               "end, that read(n) and every readv chunk return exactly file[o, o+n) truncated at EOF (for any "
               "interleaving, arrival order and short-read behaviour, overlapping / unordered / beyond-EOF chunks), and "
-              "that every answered request releases its extent; tied to sftp_file.py by a deterministic direct drive "
+              "that every answered request releases its extent and the reader / prefetch-thread / wire interleaving is "
+              "deadlock free (C28_terminates); tied to sftp_file.py by a deterministic direct drive "
               "of the real bookkeeping against the model (vm_compute) and by a real client/server loopback oracle "
               "with seeded short reads every run.")
 LEVEL_NOTE = ("Thread timing is outside the proof: the prefetch threads, the wire and the server are an environment "
-              "of atomic steps (send / register extent / deliver) chosen by a schedule oracle, any arrival order; that "
-              "the real threads only perform such steps is exercised by the loopback run, not proved. Termination is "
-              "proved in part (C28_terminates_partial: every environment step consumes a finite measure, every "
-              "answered request releases its extent and sets _prefetch_done when it was the last, an idle wire never "
-              "blocks a reader once done is set; deadlock freedom of the full interleaving is checked by the watchdog "
-              "oracle only). Server failures other than EOF (saved exception) are modelled but excluded from the "
-              "theorems' premises. SFTPClient._expecting bookkeeping belongs to C30.")
-TECHNIQUE = ("Coq proof (invariants over an environment LTS, induction over schedules) + vm_compute differential "
-             "correspondence (direct drive, no threads) + real loopback oracle with short reads under a watchdog")
+              "of atomic steps (send / register extent / deliver; a reply whose extent is not registered yet is not "
+              "deliverable = the real _async_response spins) chosen by a schedule oracle, any arrival order. "
+              "C28_terminates proves deadlock freedom of that interleaving for every reachable state (some step is "
+              "enabled while anything is outstanding, every step consumes a finite measure, an idle wire never blocks "
+              "the reader). That the real threads only perform such steps is tied, not proved: the shapes of "
+              "_async_response / _start_prefetch / _prefetch_thread and MAX_REQUEST_SIZE are re-derived from the "
+              "source by gen/c28.py into proof obligations (C28_source_shape), _async_response is driven before and "
+              "after a late registration, and loopback runs delay the registration under a watchdog. Fairness of the "
+              "OS scheduler and of the prefetch lock is assumed. Server failures other than EOF (saved exception) "
+              "are modelled but excluded from the theorems' premises. SFTPClient._expecting bookkeeping belongs to C30.")
+TECHNIQUE = ("Coq proof (invariants over an environment LTS, induction over schedules, progress + measure) + source-"
+             "derived shape obligations (gen/c28.py) + vm_compute differential correspondence (direct drive) + real "
+             "loopback oracle with short reads and delayed extent registration under a watchdog")
 
 WATCHDOG = 12.0
 
@@ -224,7 +229,7 @@ def direct_micro(ctx, scale):
     sf.threading = ThreadingShim
     try:
         buf_cases, req_cases, asy_cases, plan_cases = [], [], [], []
-        for j in range(150 * scale):
+        for j in range(100 * scale):
             filedata = bytes(rng.randrange(256) for _ in range(rng.randrange(0, 60)))
             stub = StubSftp(filedata, 1, rng)
             f = make_file(sf, stub, rng.choice([4, 8, 16, 32768]), 0)
@@ -308,6 +313,92 @@ def direct_micro(ctx, scale):
         bad = ctx.model_mismatches(fn, ty, cases)
         for i in bad[:2]:
             ctx.disagree(what + " differs from the model", case=cases[i][0], impl=cases[i][1])
+
+
+def direct_late_registration(ctx, scale):
+    """_async_response for a request number that _prefetch_thread has not recorded yet (the schedule
+    send -> deliver -> register): the real code spins until the extent is registered, then stores the
+    data and releases the extent.  Model: async_response = None (not enabled) before, Some after."""
+    import time
+    import paramiko.sftp_file as sf
+    from paramiko.message import Message
+    from paramiko.sftp import CMD_DATA, CMD_STATUS, SFTP_EOF
+    rng = ctx.rng
+    before_cases, after_cases, meta = [], [], []
+    for j in range(6 * scale):
+        filedata = bytes(rng.randrange(256) for _ in range(rng.randrange(10, 60)))
+        stub = StubSftp(filedata, 1, rng)
+        f = make_file(sf, stub, 32768, 0)
+        f._prefetch_data = gen_buffers(rng, filedata)
+        f._prefetch_extents = gen_extents(rng, 0, 70)
+        num = max(list(f._prefetch_extents) + [0]) + rng.randrange(1, 4)
+        off, length = rng.randrange(0, 60), rng.randrange(1, 12)
+        code = rng.choice([0, 0, 0, 1])
+        payload = bytes(rng.randrange(256) for _ in range(rng.randrange(1, 9)))
+        m = Message()
+        if code == 0:
+            t = CMD_DATA
+            m.add_string(payload)
+        else:
+            t = CMD_STATUS
+            m.add_int(SFTP_EOF)
+            m.add_string("x")
+            m.add_string("")
+        m.rewind()
+        d0 = list(f._prefetch_data.items())
+        e0 = list(f._prefetch_extents.items())
+        case = {"data": d0, "extents": e0, "num": num, "extent": [off, length], "resp": code, "payload": payload}
+        th = threading.Thread(target=lambda: f._async_response(t, m, num), daemon=True)
+        th.start()
+        th.join(0.15)
+        waiting = th.is_alive()
+        before_cases.append(("(%s, %s, false, false, %d, %d, %s)" % (coq_data(d0), coq_ext(e0), num, code,
+                                                                     coq(list(payload))),
+                             [99] if waiting else enc_client(f)))
+        ctx.count(("late-reg", tuple(d0), tuple(e0), num, off, length, code, payload), kind="async-before-registration")
+        if not waiting:
+            ctx.fail("async-response-not-waiting-for-registration",
+                     "_async_response returned for a request number that _prefetch_thread has not recorded yet "
+                     "(reply consumed, extent registered afterwards is never released): a later read of that "
+                     "chunk waits forever", case=case, expected="waits until the extent is registered",
+                     observed="returned; data=%r extents=%r" % (dict(f._prefetch_data), dict(f._prefetch_extents)))
+        # _prefetch_thread now records the request
+        deadline = time.time() + WATCHDOG
+        while True:
+            if f._prefetch_lock.acquire(timeout=0.5):
+                f._prefetch_extents[num] = (off, length)
+                f._prefetch_lock.release()
+                break
+            if time.time() > deadline:
+                break
+        th.join(WATCHDOG)
+        e1 = e0 + [(num, (off, length))]
+        if th.is_alive():
+            ctx.fail("async-response-never-completes", "_async_response still spins after its extent was registered",
+                     case=case, expected="completes", observed="spins")
+            f._prefetch_extents.pop(num, None)
+        else:
+            ok = num not in f._prefetch_extents and (code != 0 or f._prefetch_data.get(off) == payload)
+            if not ok and waiting:
+                ctx.fail("async-response-late-registration-lost",
+                         "after late registration the reply's data is not buffered at the extent's offset or the "
+                         "extent is not released", case=case, expected={"data_at": off, "extent_released": True},
+                         observed={"data": dict(f._prefetch_data), "extents": dict(f._prefetch_extents)})
+            if waiting:
+                after_cases.append(("(%s, %s, false, false, %d, %d, %s)" % (coq_data(d0), coq_ext(e1), num, code,
+                                                                            coq(list(payload))), enc_client(f)))
+        f._closed = True
+    ty = "(dict (list Z) * dict (Z * Z) * bool * bool * Z * Z * list Z)"
+    cases = before_cases + after_cases
+    try:
+        bad = ctx.model_mismatches("run_async", ty, cases)
+    except Exception as e:   # the oracle above does not depend on the model
+        ctx.disagree("model evaluation failed: %s" % e)
+        bad = []
+    for i in bad[:3]:
+        what = ("_async_response before the extent is registered (model: not enabled, the real code spins)"
+                if i < len(before_cases) else "_async_response once the extent is registered late")
+        ctx.disagree(what + " differs from the model", case=cases[i][0], impl=cases[i][1])
 
 
 def gen_session(rng):
@@ -429,7 +520,7 @@ def direct_sessions(ctx, scale):
     sf.threading = ThreadingShim
     cases = []
     try:
-        for j in range(220 * scale):
+        for j in range(150 * scale):
             sess = gen_session(rng)
             fail_rate = 0.04 if rng.random() < 0.15 else 0.0
             out, text, failures = run_session_impl(rng, sess, fail_rate)
@@ -548,7 +639,10 @@ def gen_real_case(rng, thorough):
                     o = max(0, chunks[-1][0] + rng.randrange(-3000, 3000))
                 chunks.append([o, rng.choice([0, 1, 10, rng.randrange(0, lim), rng.randrange(0, 40000) % (lim + 1)])])
             ops.append(["readv", chunks, cap])
-    return {"size": size, "mode": mode, "seed": rng.randrange(1 << 30), "ops": ops}
+    case = {"size": size, "mode": mode, "seed": rng.randrange(1 << 30), "ops": ops}
+    if rng.random() < 0.3 and size <= 200000:
+        case["delay"] = rng.choice([0.01, 0.03, 0.06])      # open the send -> register race window
+    return case
 
 
 def file_bytes(size, seed):
@@ -569,8 +663,23 @@ def execute_real(rig, root, case, name):
         fh.write(data)
     SHORT["mode"], SHORT["seed"], SHORT["maxlen"] = case["mode"], case["seed"], 0
     res = {}
+    delay = case.get("delay") or 0
+    orig_async = rig.sftp._async_request
+    reader = {}
+
+    def slow_async_request(fileobj, t, *args):
+        # the request is on the wire, but _prefetch_thread gets its number (and records the extent) late:
+        # the reader sees the reply first and _async_response has to wait for the registration
+        num = orig_async(fileobj, t, *args)
+        if threading.current_thread() is not reader.get("t"):
+            import time
+            time.sleep(delay)
+        return num
 
     def body():
+        reader["t"] = threading.current_thread()
+        if delay:
+            rig.sftp._async_request = slow_async_request
         f = rig.sftp.open("/" + name, "rb")
         pos = 0
         for idx, op in enumerate(case["ops"]):
@@ -603,7 +712,14 @@ def execute_real(rig, root, case, name):
                     pos = op[1][-1][0] + len(outs[-1])
         f.close()
 
-    st, v = with_watchdog(body, WATCHDOG)
+    try:
+        st, v = with_watchdog(body, WATCHDOG)
+    finally:
+        if delay:
+            try:
+                del rig.sftp._async_request
+            except AttributeError:
+                pass
     if st == "hang":
         return ("hang", "a prefetched read / readv did not return within %.0f s (reader waits for a response that is "
                 "not outstanding)" % WATCHDOG, None, "returns", "blocks")
@@ -638,6 +754,16 @@ REGRESSIONS = [
      "with max_concurrent_prefetch_requests=1 an EOF status keeps its extent, the prefetch thread never sends the "
      "next request and the reader blocks",
      {"size": 500, "mode": "full", "seed": 14, "ops": [["readv", [[600, 10], [0, 10]], 1]]}),
+    ("reply-before-extent-registered",
+     "the reader receives a prefetch reply before _prefetch_thread has recorded the request (registration delayed "
+     "0.15 s): the reply must wait for the registration; otherwise the extent is never released and read() after "
+     "prefetch() never returns",
+     {"size": 50000, "mode": "full", "seed": 15, "delay": 0.15,
+      "ops": [["prefetch", None, None], ["read", 50000], ["seek", 100], ["read", 50]]}),
+    ("reply-before-extent-registered-capped",
+     "the same race with max_concurrent_requests=1 and a following readv",
+     {"size": 70000, "mode": "random", "seed": 16, "delay": 0.1,
+      "ops": [["prefetch", 1, None], ["read", 40000], ["readv", [[100, 50], [60000, 20000], [5, 5]], None]]}),
 ]
 
 
@@ -658,9 +784,14 @@ def real_oracle(ctx, scale):
             if case is None:
                 case = gen_real_case(rng, ctx.thorough)
             n += 1
+            import time
+            t0 = time.time()
             r = execute_real(rig, root, case, "f%d" % n)
+            if time.time() - t0 > 3:
+                ctx.log("slow real case %.1fs: %s -> %s" % (time.time() - t0, str(case)[:300], r and r[0]))
             ctx.count(("real", repr(case)), nontrivial=case["size"] > 0 and len(case["ops"]) > 0,
-                      kind="real-%s-%s" % (case["mode"], "+".join(sorted({o[0] for o in case["ops"]}))))
+                      kind="real-%s%s-%s" % (case["mode"], "-latereg" if case.get("delay") else "",
+                                             "+".join(sorted({o[0] for o in case["ops"]}))))
             if r is not None and r[0] in ("hang", "exception") and key is None:
                 # retry once on a fresh connection before believing a timing-dependent failure
                 rig.close()
@@ -708,9 +839,11 @@ def run(ctx):
                         "prefix) or an EOF status; other error statuses are outside the theorems' premises",
                         "max_concurrent_requests is None or >= 1"]
     ctx.prove()
-    direct_micro(ctx, scale)
-    direct_sessions(ctx, scale)
-    real_oracle(ctx, scale)
+    import time
+    for fn in (direct_micro, direct_late_registration, direct_sessions, real_oracle):
+        t0 = time.time()
+        fn(ctx, scale)
+        ctx.log("%s: %.1fs" % (fn.__name__, time.time() - t0))
 
 
 def _unhex(v):
